@@ -20,6 +20,10 @@
 (*                        value (raised = "none") or with the error named  *)
 (*                        raised.  M = the replies (indices into lrep)     *)
 (*                        whose content is what the caller was given.      *)
+(*   LWire(r, corr)       (buffered connections, where a request may reach *)
+(*                        the broker long after it was issued: LReq then   *)
+(*                        carries no frame) the broker has completely      *)
+(*                        received the frame of request r, header id corr  *)
 (*   LEnd(unread)         end of the run, the client is quiescent and has  *)
 (*                        `unread` bytes of the broker still unread.       *)
 (* Check operators return "ok" or the first failing clause, evaluated in   *)
@@ -36,7 +40,9 @@
 (*        delivered to nobody                                               *)
 (*   C15.replyTwice         a request is given a reply at most once        *)
 (*   C15.replyLost          a reply the client has read, whose request is  *)
-(*        still waiting, is delivered to it                                *)
+(*        still waiting, is delivered to it: at the end no such request is *)
+(*        left waiting, and a request is not told "timed out" at an        *)
+(*        instant later than the one at which its reply reached the client *)
 (*   C15.produceResponse / C15.metadataResponse  the request's own reply   *)
 (*        was there but the value differs from what the broker encoded /   *)
 (*        decoding raised                                                   *)
@@ -47,7 +53,8 @@
 EXTENDS Integers, Sequences, FiniteSets, TLC
 
 VARIABLES lreq,   \* r -> [api, corr, st]   st: "open" | "value" | "failed"
-          lrep    \* sequence of [w, api, corr, c, used, nreq]  (nreq = requests issued when it was encoded)
+          lrep    \* sequence of [w, api, corr, c, used, nreq, t]  (nreq = requests issued when it was encoded,
+                  \* t = the instant (ms) it was put on the connection)
 lvars == <<lreq, lrep>>
 
 LInit == lreq = <<>> /\ lrep = <<>>
@@ -76,14 +83,26 @@ LReplyCheck(w, corr) ==
   ELSE IF w = 0 /\ \E r \in DOMAIN lreq : lreq[r].corr = corr /\ RepliesTo(r) = {} THEN "harness.unknownCorrInUse"
   ELSE IF w # 0 /\ \E k \in RepliesTo(w) : lrep[k].nreq # NReq THEN "harness.duplicateAfterNewRequest"
   ELSE "ok"
-LReplyUpd(w, api, corr, c) ==
-  /\ lrep' = Append(lrep, [w |-> w, api |-> api, corr |-> corr, c |-> c, used |-> FALSE, nreq |-> NReq])
+LReplyUpd(w, api, corr, c, t) ==
+  /\ lrep' = Append(lrep, [w |-> w, api |-> api, corr |-> corr, c |-> c, used |-> FALSE, nreq |-> NReq, t |-> t])
   /\ UNCHANGED lreq
+
+\* ------------------------------------------------------------------ LWire
+\* r = 0: a frame that carries none of the supplied requests
+LWireCheck(r) ==
+  IF r = 0 THEN "C15.supplied"
+  ELSE IF r \notin DOMAIN lreq THEN "harness.unknownRequest"
+  ELSE IF lreq[r].corr # -1 THEN "C15.suppliedOnce"          \* the request is on the wire a second time
+  ELSE "ok"
+LWireUpd(r, corr) ==
+  /\ lreq' = IF r \in DOMAIN lreq THEN [lreq EXCEPT ![r].corr = corr] ELSE lreq
+  /\ UNCHANGED lrep
 
 \* ------------------------------------------------------------------ LDone
 DecodeClause(r) == IF lreq[r].api = LProduce THEN "C15.produceResponse" ELSE "C15.metadataResponse"
 
-LDoneCheck(r, raised, M) ==
+\* t = the instant (ms) of the completion
+LDoneCheck(r, raised, M, t) ==
   IF r \notin DOMAIN lreq THEN "harness.unknownRequest"
   ELSE IF raised = "none" THEN
     IF lreq[r].st = "value" THEN "C15.replyTwice"
@@ -93,7 +112,9 @@ LDoneCheck(r, raised, M) ==
     ELSE IF Own(r) = {} \/ M \ Own(r) # {} THEN "C15.replyMisdelivered"
     ELSE DecodeClause(r)
   ELSE
-    IF lreq[r].st # "open" \/ raised = "TimeoutError" THEN "ok"
+    IF lreq[r].st # "open" THEN "ok"
+    \* its reply reached the client at an earlier instant and was not delivered
+    ELSE IF raised = "TimeoutError" THEN (IF \E k \in Own(r) : lrep[k].t < t THEN "C15.replyLost" ELSE "ok")
     \* any other error while its own reply is there: that reply did not decode
     ELSE IF Own(r) # {} THEN DecodeClause(r)
     ELSE "ok"
